@@ -8,6 +8,7 @@ import (
 	"path/filepath"
 	"sort"
 	"strings"
+	"time"
 
 	"verif/engine/gosym"
 	"verif/engine/sym"
@@ -19,6 +20,8 @@ type cmdOutcome struct {
 	Args []string
 	Lits map[string]int64
 	Desc string
+	// modification times (seconds) of files before the run, where the path depends on them
+	MTimes map[string]int64
 }
 
 var staleText = "#!/bin/bash\n" + strings.Repeat("echo STALE LINE OF AN EARLIER AND MUCH LONGER OUTPUT\n", 40)
@@ -188,7 +191,13 @@ func CheckC19(r *Run) int {
 					lits[k] = int64(v)
 				}
 			}
-			return cmdOutcome{Kind: "bad", What: what, Args: as, Lits: lits}
+			mt := map[string]int64{}
+			for k, v := range m {
+				if strings.HasPrefix(k, "mtime_/w/") && !strings.Contains(k, "#w") {
+					mt[strings.TrimPrefix(k, "mtime_/w/")] = int64(v)
+				}
+			}
+			return cmdOutcome{Kind: "bad", What: what, Args: as, Lits: lits, MTimes: mt}
 		}
 		unknownOpt := false
 		nIn, nOut := 0, 0
@@ -341,6 +350,36 @@ func CheckC19(r *Run) int {
 	sort.Strings(pkeys)
 	// one probe per combination of option values (flag spelling and order normalised), so that every input/output/target
 	// combination the engine could not decide is run natively
+	// the probe budget is spread over the argument orders: keys are visited in the order of a hash of the option-letter
+	// sequence and the key, so that no order (e.g. the target named first) is starved by the ones that sort before it
+	orderOf := func(k string) string {
+		var sb strings.Builder
+		for i, a := range probes[k] {
+			if i > 0 && strings.HasPrefix(a, "-") && len(strings.TrimLeft(a, "-")) > 0 {
+				sb.WriteString(strings.TrimLeft(a, "-")[:1])
+			}
+		}
+		return sb.String()
+	}
+	byOrder := map[string][]string{}
+	var orders []string
+	for _, k := range pkeys {
+		o := orderOf(k)
+		if _, ok := byOrder[o]; !ok {
+			orders = append(orders, o)
+		}
+		byOrder[o] = append(byOrder[o], k)
+	}
+	sort.Strings(orders)
+	var interleaved []string
+	for i := 0; len(interleaved) < len(pkeys); i++ {
+		for _, o := range orders {
+			if i < len(byOrder[o]) {
+				interleaved = append(interleaved, byOrder[o][i])
+			}
+		}
+	}
+	pkeys = interleaved
 	bucketSeen := map[string]bool{}
 	var chosen []string
 	for _, k := range pkeys {
@@ -362,7 +401,7 @@ func CheckC19(r *Run) int {
 	}
 	probed := 0
 	for _, k := range chosen {
-		if probed >= 400 {
+		if probed >= 600 {
 			break
 		}
 		probed++
@@ -469,6 +508,18 @@ func confirmCmd(nat *Native, b cmdOutcome) (bool, string) {
 		})
 		return m
 	}
+	// modification times: the counterexample's where the path depends on them, otherwise one common instant
+	filepath.Walk(dir, func(p string, info os.FileInfo, err error) error {
+		if err == nil && !info.IsDir() {
+			rel, _ := filepath.Rel(dir, p)
+			t := time.Unix(1_500_000_000, 0)
+			if v, ok := b.MTimes[rel]; ok {
+				t = time.Unix(v, 0)
+			}
+			os.Chtimes(p, t, t)
+		}
+		return nil
+	})
 	before := snapshot()
 	cmd := exec.Command("/usr/bin/timeout", append([]string{"20", filepath.Base(nat.Tsh)}, b.Args[1:]...)...)
 	cmd.Env = append(os.Environ(), "PATH="+filepath.Dir(nat.Tsh)+":/usr/bin:/bin") // started by bare name through the search path
